@@ -1120,6 +1120,8 @@ class Interp:
                 nm = f"{base.name}[{show(idx.start)}:{show(idx.stop)}:{show(idx.step)}]"
                 return SymSeq(nm, base.elem, Term("slice_len", (_hashable(base), _hashable(parts)), "int"), (base,))
             if idx.step is not None:
+                if sort_of(base) == "bytes":
+                    return Term("slice_step", (_hashable(base), idx.start, idx.stop, idx.step), "bytes")
                 raise AnalysisError(f"{self.where(node)}: symbolic slice with step")
             if sort_of(base) != "bytes":
                 raise AnalysisError(f"{self.where(node)}: symbolic slice of non-bytes {base!r}")
